@@ -4,14 +4,14 @@ import (
 	"os"
 	"strconv"
 
-	"github.com/WuKongIM/WuKongIM/pkg/zzverif/mc"
 	"github.com/WuKongIM/WuKongIM/pkg/zzverif/ev"
+	"github.com/WuKongIM/WuKongIM/pkg/zzverif/mc"
 )
 
 func vwBounds(o vwOpts) map[string]any {
 	return map[string]any{
 		"voters": vwN, "write_quorum": vwQ, "commands": o.cmds, "authority_allocations_after_initial": o.maxInstalls,
-		"store_backend": map[bool]string{false: "channelstore.MemoryFactory", true: "channelstore.MessageDBFactory (pkg/db/message, Pebble on tmpfs)"}[o.backend != nil],
+		"store_backend":  map[bool]string{false: "channelstore.MemoryFactory", true: "channelstore.MessageDBFactory (pkg/db/message, Pebble on tmpfs)"}[o.backend != nil],
 		"crash_restarts": o.maxCrashes, "outages": o.maxOutages, "max_retained_commands": o.retained,
 		"events": map[string]bool{
 			"commit/exact-retry": true, "conflicting-retry": o.evConflict, "commit-with-previous-authority": o.evPrev,
@@ -38,7 +38,7 @@ func vwCounters(r *ev.R, st *vwStats) {
 	c := map[string]int64{
 		"acks": st.acks.Load(), "exact_retry_identical": st.retryIdentical.Load(), "conflicting_retry_rejected": st.conflictRejected.Load(),
 		"conflicting_content_accepted_as_new_unacked": st.conflictAcceptedAsNew.Load(),
-		"install_ok_recovering": st.installOK.Load(), "install_cached": st.installCached.Load(), "install_failed_closed": st.installFailedClosed.Load(),
+		"install_ok_recovering":                       st.installOK.Load(), "install_cached": st.installCached.Load(), "install_failed_closed": st.installFailedClosed.Load(),
 		"install_with_barrier": st.installBarrier.Load(), "kf_c01_1_transitions": st.kfHits.Load(), "kf_c01_1_sibling_transitions": st.kfSiblingHits.Load(),
 		"paths_ended_silently_at_kf_c01_1": st.kfSilentEnds.Load(), "stale_commit_rejected": st.staleCommitRejected.Load(),
 		"not_ready_commit_rejected": st.notReadyCommitRejected.Load(), "fenced_commit_rejected": st.fencedCommitRejected.Load(),
@@ -47,8 +47,8 @@ func vwCounters(r *ev.R, st *vwStats) {
 		"need_from_answers": st.needFrom.Load(), "follower_repairs_done": st.repairsDone.Load(), "trailing_delivered": st.trailingDelivered.Load(),
 		"replace_calls": st.replaceCalls.Load(), "crash_at_replace": st.crashAtReplace.Load(),
 		"observation_ack_by_leader_older_than_installed_elsewhere": st.crossNodeDeposedAck.Load(),
-		"retry_refused_under_higher_authority": st.retryRefusedHigherAuthority.Load(),
-		"committed_pairs_compared": st.committedPairsCompared.Load(), "entry_digests_verified": st.chainEntriesVerified.Load(),
+		"retry_refused_under_higher_authority":                     st.retryRefusedHigherAuthority.Load(),
+		"committed_pairs_compared":                                 st.committedPairsCompared.Load(), "entry_digests_verified": st.chainEntriesVerified.Load(),
 		"observation_rejected_conflicting_retry_left_uncommitted_row_on_non_holder": st.conflictGarbageRow.Load(),
 		"commit_backpressured": st.commitBackpressured.Load(), "commit_quorum_unavailable": st.commitUnavailable.Load(),
 	}
